@@ -21,6 +21,10 @@
 //	O event i K=- race=<call>                  a call issued by ANOTHER goroutine while the poller is inside
 //	      ResetPollerEvent, between its look at the write list and its epoll_ctl (forced through the
 //	      shim's CtlHook); if the poller holds the conn mutex there, the call runs right after it
+//	O event o K=<k,…> park=<call>              the call is issued by another goroutine and parked inside
+//	      newToWriteBuf (allocator yield point: after its direct write, before the append to the write list, under
+//	      the conn mutex); the EPOLLOUT event is injected while it is parked, then the writer resumes. A flush
+//	      that looks at the write list without the mutex misses the backlog and spends the edge.
 //	O close [race=<call>]                      Close; the racing call is issued by "another goroutine" inside the
 //	                                           teardown (after the closed flag was set, before the fd is closed;
 //	                                           shim CloseHook): it must get the closed indication and must not
@@ -71,8 +75,23 @@ import (
 
 	"github.com/lesismal/nbio"
 	"github.com/lesismal/nbio/logging"
+	"github.com/lesismal/nbio/mempool"
 	"github.com/lesismal/nbio/vsys"
 )
+
+// parkAlloc is the engines' BodyAllocator: the default pool, with a yield point in Malloc. The write path
+// calls Malloc from newToWriteBuf, i.e. under the conn mutex, after the direct write was refused and before
+// the data is appended to the write list: a writer parked there is "between its EAGAIN and its append".
+type parkAlloc struct{ mempool.Allocator }
+
+var parkHook func()
+
+func (a parkAlloc) Malloc(size int) *[]byte {
+	if h := parkHook; h != nil {
+		h()
+	}
+	return a.Allocator.Malloc(size)
+}
 
 const filePat = 3
 const bigFile = 4<<20 + 4097
@@ -593,6 +612,12 @@ func gen(g *lp.Gen) {
 				if strings.Contains(bits, "o") {
 					k = genFlush(g, s)
 				}
+				if g.Chance(1, 16) {
+					// a writer parked between its refused direct write and the append, the edge arrives meanwhile
+					call := strings.ReplaceAll(genCall(g, s, false), " ", "/")
+					g.P("O event o K=%s park=%s", genFlush(g, s), call)
+					continue
+				}
 				cb := ""
 				if bits == "i" && g.Chance(1, 6) {
 					// a writer goroutine racing with the poller's re-arm
@@ -664,6 +689,7 @@ type caseState struct {
 	fromOpen     bool // a backlog was created inside the open callback
 	dial         bool // registered through addDialer
 	hadBacklog   bool // the previous observation saw an open conn with a non-empty queue
+	parkUsed     int   // park mode: answers the call had consumed when it parked (-1 = not in park mode)
 	edgeDue      bool  // ET: the kernel owes a writability report (ADD, or a refused/short write since the last one)
 	refSeen      int64 // v.Refusals at the last look
 	lines        []string // the op lines of the case so far (for the isolated re-run)
@@ -682,7 +708,7 @@ func getEngine(mode string) *engine {
 	if e := engines[mode]; e != nil {
 		return e
 	}
-	conf := nbio.Config{NPoller: 1, Name: "hconn-" + mode}
+	conf := nbio.Config{NPoller: 1, Name: "hconn-" + mode, BodyAllocator: parkAlloc{mempool.DefaultMemPool}}
 	switch mode {
 	case "et":
 		conf.EpollMod = nbio.EPOLLET
@@ -788,6 +814,7 @@ func (cs *caseState) doCall(cl *call) string {
 	}
 	pre := cs.c.VerifWriteState(false)
 	in := cs.input(cl)
+	park := cs.parkUsed == -2 // armed by the caller: this call may park in Malloc
 	cs.v.SetScript(ans)
 	var n int64
 	var cerr error
@@ -810,7 +837,11 @@ func (cs *caseState) doCall(cl *call) string {
 	}
 	cs.v.Lock()
 	used := len(ans) - len(cs.v.Script)
-	cs.v.Script = nil
+	if park && cs.parkUsed >= 0 {
+		used = cs.parkUsed // the script now belongs to the flush of the injected event
+	} else {
+		cs.v.Script = nil
+	}
 	cs.v.Unlock()
 	fatalAns := false
 	for _, a := range ans[:used] {
@@ -1090,6 +1121,8 @@ func (cs *caseState) finish() {
 	ex.Key(cs.key.String(), cs.nontrivial)
 }
 
+func hasKey(f []string, key string) bool { _, ok := kv(f, key); return ok }
+
 func kv(f []string, key string) (string, bool) {
 	for _, t := range f {
 		if strings.HasPrefix(t, key+"=") {
@@ -1193,6 +1226,8 @@ func exec(e *lp.Exec) {
 		}
 	}()
 	firstLine := true
+	var opStart time.Time
+	lastOp := ""
 	for e.In.Scan() {
 		line := e.In.Text()
 		f := strings.Fields(line)
@@ -1205,6 +1240,15 @@ func exec(e *lp.Exec) {
 			return
 		}
 		firstLine = false
+		if p := os.Getenv("HCONN_SLOWLOG"); p != "" { // diagnostics: ops that took longer than 3 s
+			if !opStart.IsZero() && time.Since(opStart) > 3*time.Second {
+				if fh, err := os.OpenFile(p, os.O_APPEND|os.O_CREATE|os.O_WRONLY, 0644); err == nil {
+					fmt.Fprintf(fh, "%.1fs %s\n", time.Since(opStart).Seconds(), lastOp)
+					fh.Close()
+				}
+			}
+			opStart, lastOp = time.Now(), line
+		}
 		e.P("> %s", line)
 		if cur != nil && f[0] != "C" {
 			cur.lines = append(cur.lines, line)
@@ -1225,7 +1269,7 @@ func exec(e *lp.Exec) {
 				res("bad-op")
 				continue
 			}
-			cs := &caseState{typ: typ, mode: mode, maxwb: maxwb, fsize: fsize, disarmIdx: -1, wireHash: 14695981039346656037, lines: []string{line}}
+			cs := &caseState{typ: typ, mode: mode, maxwb: maxwb, fsize: fsize, disarmIdx: -1, parkUsed: -1, wireHash: 14695981039346656037, lines: []string{line}}
 			bad := false
 			if ow != "-" && ow != "" {
 				for _, it := range strings.Split(ow, ";") {
@@ -1376,6 +1420,108 @@ func exec(e *lp.Exec) {
 			}
 			fmt.Fprintf(&cur.key, "fire,")
 			res("R %s", cur.state())
+		case f[0] == "O" && len(f) >= 3 && f[1] == "event" && hasKey(f[3:], "park"):
+			cs := cur
+			kstr, _ := kv(f[3:], "K")
+			var ks []string
+			if kstr != "-" && kstr != "" {
+				ks = strings.Split(kstr, ",")
+			}
+			ans, err := parseAns(ks)
+			ps, _ := kv(f[3:], "park")
+			var pc *call
+			if err == nil {
+				pc, err = parseCall(strings.Split(ps, "/"))
+			}
+			if err != nil || f[2] != "o" || (pc.kind == "sendfile" && pc.off > cs.fsize) {
+				res("bad-op")
+				cs.dead = true
+				continue
+			}
+			// the writer goroutine
+			parked := make(chan struct{})
+			resume := make(chan struct{})
+			state := int32(1)
+			parkHook = func() {
+				if atomic.CompareAndSwapInt32(&state, 1, 2) {
+					cs.v.Lock()
+					cs.parkUsed = 0 // (bookkeeping of the call's own answers ends here)
+					cs.v.Unlock()
+					close(parked)
+					<-resume
+				}
+			}
+			if cs.mode != "et" {
+				// LT / ONESHOT arm EPOLLOUT only after the append (modWrite): no event can arrive in that
+				// window, the call simply precedes the event
+				parkHook = nil
+			}
+			cs.parkUsed = -2
+			callDone := make(chan string, 1)
+			nAns := len(pc.ks)
+			go func() { callDone <- cs.doCall(pc) }()
+			isParked := false
+			rc := "-"
+			select {
+			case <-parked:
+				isParked = true
+				cs.v.Lock()
+				cs.parkUsed = nAns - len(cs.v.Script)
+				cs.v.Unlock()
+			case rc = <-callDone:
+				atomic.StoreInt32(&state, 3)
+			}
+			parkHook = func() {}
+			// the event, masked by what the kernel could deliver now (the writer's direct write has happened)
+			reg, events, disarmed := cs.kernelState()
+			closedNow := false
+			if !isParked {
+				closedNow = cs.c.VerifWriteState(false).Closed
+			}
+			deliv := "-"
+			if reg && !closedNow && !disarmed && events&syscall.EPOLLOUT != 0 && (cs.mode != "et" || cs.edgeDue) {
+				deliv = "o"
+				if cs.mode == "et" {
+					cs.edgeDue = false
+				}
+				cs.v.Lock()
+				if cs.mode == "oneshot" {
+					cs.disarmIdx = len(cs.v.Ctl)
+				}
+				cs.v.Script = ans
+				cs.v.Unlock()
+				done := vsys.InjectAsync(engines[cs.mode].epfd, []syscall.EpollEvent{{Fd: int32(cs.fd), Events: syscall.EPOLLOUT}})
+				if isParked {
+					select {
+					case <-done: // flush did not wait for the writer's critical section
+					case <-time.After(50 * time.Millisecond):
+					}
+					close(resume)
+					rc = <-callDone
+				}
+				select {
+				case <-done:
+				case <-time.After(hangTimeout):
+					cs.hang("event loop did not come back from an event injected while a writer was parked")
+					parkHook = nil
+					cs.parkUsed = -1
+					continue
+				}
+				cs.v.Lock()
+				cs.v.Script = nil
+				cs.v.Unlock()
+			} else if isParked {
+				close(resume)
+				rc = <-callDone
+			}
+			parkHook = nil
+			cs.parkUsed = -1
+			e.Count("events", "park")
+			if isParked {
+				e.Count("events", "park-writer-parked")
+			}
+			fmt.Fprintf(&cs.key, "park%s,", deliv)
+			res("R deliv=%s cb=- rc=%s %s", deliv, rc, cs.state())
 		case f[0] == "O" && len(f) >= 3 && f[1] == "event":
 			cs := cur
 			bits := f[2]
